@@ -174,4 +174,22 @@ PROPS = {
                         "TTL is modelled as live / always-expired; real-time expiry inside a scenario is not exercised in the quick tier",
                         "known finding F7b (two distinct valid discharges for one ticket in non-sorted order) is excluded by the key-soundness hypothesis and reported as KNOWN-FINDING"],
     },
+    "C11": {
+        "obligation_files": ["Properties/C11.v"],
+        "model_files": ['Model/Caveat.v', 'Model/Msgpack.v', 'Model/Codec.v', 'Corr/Transport.v', 'Corr/RunM.v'],
+        "rule": "stream codec: caveats of every registered type with fields on encoding boundaries (0, 127/128, 255/256, 65535/65536, 2^32-1/2^32, 2^63-1/2^63, 2^64-1; negative int64 boundaries; string/byte lengths 0,1,31,32,255,256; maps and slices of 0,1,15,16,17 entries; nil vs empty; nested conditionals; unregistered types with arbitrary msgpack bodies) - "
+                "MarshalMsgpack bytes compared with the model's encoder; whole sets and tokens (both nonce versions); frames the decoder sees (type + body bytes) on encoded sets; Decoder.Skip on well-formed, truncated, mutated and extended msgpack values; JSON round trip (msgpack of the result compared with the model's json_rt); "
+                "implementation-side oracles: encoding twice gives the same bytes, decode then re-encode reproduces the bytes, and three non-canonical re-encodings of every generated token (map-encoded structs + full-width ints, full-width ints, trailing bytes) decode to a value that re-encodes to the canonical bytes and verifies with the same verdict; non-trivial = all encode cases, skip cases the library accepts",
+        "assumptions": ["partial: typed lenient decoding of individual fields (width variants, nil-for-zero, str/bin, map-encoded structs) is checked on the implementation by the non-canonical oracle, not modelled",
+                        "encoding/json's text layer is trusted; text fields are ASCII in the generator (valid UTF-8 is a hypothesis of the property)"],
+    },
+    "C12": {
+        "obligation_files": ["Properties/C12.v"],
+        "model_files": ['Model/Caveat.v', 'Model/Msgpack.v', 'Model/Codec.v', 'Corr/Transport.v', 'Corr/RunM.v'],
+        "rule": "stream malformed: structurally valid tokens damaged in 9 ways (byte mutation, nil in place of a field, oversized length prefixes array32/map32/bin32/str32/array16, nesting up to 2000 deep, unknown types with arbitrary bodies and mistyped bodies for registered types, truncation, random bytes, the recorded crashers F2-F5/F11, mistyped spliced values), "
+                "JSON documents (null bodies, null ifs, wrong shapes, mutated) and header strings; every input goes through Decode / DecodeCaveats / DecodeNonce / Parse / ParseBundle and then EVERY operation the library offers on the result (Validate, GetCaveats, scopes, Expiration, tickets, Verify, Add, Encode, String, Clone, JSON, bundle ops) under recover() with a TotalAlloc bound of 256*len + 64 MiB; "
+                "the model's Decoder.Skip is compared on the same hostile inputs; non-trivial = all inputs",
+        "assumptions": ["partial: Go-runtime panics, stack growth on deep nesting and real allocation are exhibited by this fuzz run (support), not by the theorems; the theorems bound what the parser model can be made to allocate or return",
+                        "msgpack's own chunked allocation limits (1 MB per byte string read attempt) are relied on and covered by the measured bound"],
+    },
 }
